@@ -3,7 +3,7 @@ import re
 import subprocess
 p = "/verif/DESIGN.md"
 s = open(p).read()
-for sel in ("_a", "_b", "_c"):
+for sel in ("_a", "_b", "_c", "_d"):
     r = subprocess.run(["python3", "/verif/tools/seedtable.py", sel], capture_output=True, text=True)
     body = r.stdout.strip() + "\n\n" + r.stderr.strip() + "\n"
     s = re.sub(r"<!-- SEEDS:%s -->.*?<!-- /SEEDS:%s -->" % (sel, sel), lambda m: "<!-- SEEDS:%s -->\n%s<!-- /SEEDS:%s -->" % (sel, body, sel), s, flags=re.S)
